@@ -395,7 +395,7 @@ def b_gassner(ctx):
     import pylife.stress.collective   # noqa
     limits_pool = [[0., 200., 400., 600., 800.], [0., 100., 150., 400., 1000.], [50., 60., 300.], [0., 500.], [10., 20., 40., 80.]]
     curves = [pd.Series({'k_1': 5.0, 'ND': 1e6, 'SD': 100.0}), pd.Series({'k_1': 3.0, 'ND': 2e6, 'SD': 300.0, 'k_2': 8.0})]
-    ctx.bound = "class limits from a pool of 5 (regular / irregular, 1-4 classes) x all count patterns over {0,1,10} with >= 1 occupied class x 2 curves x load factors {0.5, 1, 2.5}"
+    ctx.bound = "class limits from a pool of 5 (regular / irregular, 1-4 classes; members listed ascending, descending and rotated) x all count patterns over {0,1,10} with >= 1 occupied class x 2 curves x load factors {0.5, 1, 2.5}"
     ctx.rule = "non-trivial: at least one empty class; distinct by (limits, counts, curve, factor)"
     ctx.exhaustive = True
     for limits in limits_pool:
@@ -407,9 +407,22 @@ def b_gassner(ctx):
                 for fac in (0.5, 1.0, 2.5):
                     if not ctx.mine():
                         continue
-                    hist = _hist([x * fac for x in limits], counts)
+                    hist0 = _hist([x * fac for x in limits], counts)
+                    # the members of a collective have no order: ascending (as every fixture of the suite), descending and rotated listing
+                    for order in ('ascending', 'descending', 'rotated'):
+                        perm = list(range(ncls))
+                        perm = perm[::-1] if order == 'descending' else (perm[1:] + perm[:1] if order == 'rotated' else perm)
+                        if order != 'ascending' and perm == list(range(ncls)):
+                            continue
+                        _one_histogram(ctx, hist0.iloc[perm], limits, counts, ci, wc, fac, order, perm)
+    ctx.sample({'limits': [0, 200, 400, 600, 800], 'counts': [10, 0, 1, 10], 'curve': curves[0].to_dict(), 'orders': ['ascending', 'descending', 'rotated']})
+
+
+def _one_histogram(ctx, hist, limits, counts, ci, wc, fac, order, perm):
+                    import pandas as pd   # noqa
                     lc = hist.load_collective
-                    ctx.case(0 in counts, key=(tuple(limits), counts, ci, fac))
+                    ctx.case(0 in counts or order != 'ascending', key=(tuple(limits), counts, ci, fac, order))
+                    otag = '' if order == 'ascending' else f':members-{order}'
                     for rule, acc, modifier in (('elementary', 'gassner_miner_elementary', 'miner_elementary'), ('haibach', 'gassner_miner_haibach', 'miner_haibach')):
                         amp_max_occ = float(lc.amplitude[hist.values > 0].max())
                         key = ('below-endurance-limit' if amp_max_occ < wc.SD else 'reaches-endurance-limit') + ':' + \
@@ -418,9 +431,9 @@ def b_gassner(ctx):
                         scaled = hist * ng / hist.sum()
                         dmg = float(getattr(wc.fatigue, modifier)().damage(scaled.load_collective).sum())
                         if abs(dmg - 1) > 1e-9:
-                            ctx.fail(f'C11:gassner:{rule}:{key}', f'{rule}: damage of the collective applied for its Gassner cycles is {dmg}, limits {list(hist.index.left) + [hist.index.right[-1]]}, counts {list(counts)}',
+                            ctx.fail(f'C11:gassner:{rule}:{key}{otag}', f'{rule}: damage of the collective applied for its Gassner cycles is {dmg}, limits {[x * fac for x in limits]}, counts {list(counts)}, members listed {order}',
                                      "import pandas as pd\nimport pylife.strength.miner, pylife.strength.fatigue, pylife.stress.collective\n"
-                                     f"hist = pd.Series({[float(c) for c in counts]!r}, index=pd.IntervalIndex.from_breaks({[x * fac for x in limits]!r}, name='range'))\n"
+                                     f"hist = pd.Series({[float(c) for c in counts]!r}, index=pd.IntervalIndex.from_breaks({[x * fac for x in limits]!r}, name='range')).iloc[{perm!r}]\n"
                                      f"wc = pd.Series({wc.to_dict()!r})\nng = wc.{acc}.gassner_cycles(hist.load_collective)\n"
                                      f"dmg = wc.fatigue.{modifier}().damage((hist * ng / hist.sum()).load_collective).sum()\nprint(ng, dmg)\nassert abs(dmg - 1) < 1e-9, dmg\n")
                     do = float(wc.fatigue.miner_original().damage(lc).sum())
@@ -434,8 +447,10 @@ def b_gassner(ctx):
                         ctx.fail('C11:linearity', f'damage(3 h) = {d2} != 3 damage(h) = {3 * d1}', {'limits': limits, 'counts': counts})
                     eff = wc.gassner_miner_elementary.effective_damage_sum(lc)
                     if not (0.3 <= eff <= 1.0):
-                        ctx.fail('C11:effective-damage-sum', f'effective damage sum {eff} outside [0.3, 1]', {'limits': limits, 'counts': counts})
-    ctx.sample({'limits': [0, 200, 400, 600, 800], 'counts': [10, 0, 1, 10], 'curve': curves[0].to_dict()})
+                        ctx.fail(f'C11:effective-damage-sum{otag}', f'effective damage sum {eff} outside [0.3, 1] (members listed {order})', {'limits': limits, 'counts': counts, 'order': order})
+                    sol = float(hist.solidity.haibach(wc.k_1))
+                    if not (0 < sol <= 1 + 1e-12):
+                        ctx.fail(f'C11:solidity-range{otag}', f'solidity {sol} outside (0, 1] (members listed {order})', {'limits': limits, 'counts': counts, 'order': order})
 
 
 META = {
